@@ -70,10 +70,12 @@ WaveFormatEx someFormat() { WaveFormatEx f; std::memset(&f, 0, sizeof f); f.wFor
 struct Probe { const char* name; std::function<std::string(unsigned char)> run; };
 const std::vector<Probe>& probes() {
   static const std::vector<Probe> v = {
+#ifndef LAYOUT_PUBLIC_ONLY
     {"VolSectionHeader", [](unsigned char f) { return builtOver<VolFile::SectionHeader>(f, [] { return VolFile::SectionHeader(MakeTag("VBLK"), 0x1234u); }); }},
     {"VolIndexEntry", [](unsigned char f) { return builtOver<VolFile::IndexEntry>(f, [] { return VolFile::IndexEntry(); }); }},
     {"ClmHeader", [](unsigned char f) { return builtOver<ClmFile::ClmHeader>(f, [] { return ClmFile::ClmHeader::MakeHeader(someFormat(), 3); }); }},
     {"ClmIndexEntry", [](unsigned char f) { return builtOver<ClmFile::IndexEntry>(f, [] { return ClmFile::IndexEntry(); }); }},
+#endif
     {"WaveHeader", [](unsigned char f) { return builtOver<WaveHeader>(f, [] { return WaveHeader::Create(someFormat(), 77); }); }},
     {"MapHeader", [](unsigned char f) { return builtOver<MapHeader>(f, [] { return MapHeader(); }); }},
     {"BmpHeader", [](unsigned char f) { return builtOver<BmpHeader>(f, [] { return BmpHeader::Create(1000, 54); }); }},
@@ -116,6 +118,7 @@ DRV_CMD(layout_dump, "layout.dump") {
   (void)a; g_out.clear();
   outf("-- GENERATED by extract/layout_probe.cpp from /repo's current headers; do not edit\n");
   outf("namespace Op2.Gen.Layout\n");
+#ifndef LAYOUT_PUBLIC_ONLY
   SZ("VolIndexEntry", VolFile::IndexEntry);
   OFF("VolIndexEntry_filenameOffset", VolFile::IndexEntry, filenameOffset);
   OFF("VolIndexEntry_dataBlockOffset", VolFile::IndexEntry, dataBlockOffset);
@@ -124,8 +127,10 @@ DRV_CMD(layout_dump, "layout.dump") {
   SZ("VolSectionHeader", VolFile::SectionHeader);
   { VolFile::SectionHeader h; std::memset(&h, 0, sizeof h); h.length = 0x7FFFFFFF; uint32_t w; std::memcpy(&w, reinterpret_cast<char*>(&h) + 4, 4); outf("def mask_VolSectionHeader_length : Nat := %u\n", w); }
   { VolFile::SectionHeader h; std::memset(&h, 0, sizeof h); h.padding = VolFile::VolPadding::FourByte; uint32_t w; std::memcpy(&w, reinterpret_cast<char*>(&h) + 4, 4); outf("def mask_VolSectionHeader_padding : Nat := %u\n", w); }
+#endif
   NAT("vol_Uncompressed", static_cast<uint16_t>(CompressionType::Uncompressed));
   NAT("vol_LZH", static_cast<uint16_t>(CompressionType::LZH));
+#ifndef LAYOUT_PUBLIC_ONLY
   SZ("ClmHeader", ClmFile::ClmHeader);
   OFF("ClmHeader_waveFormat", ClmFile::ClmHeader, waveFormat);
   OFF("ClmHeader_unknown", ClmFile::ClmHeader, unknown);
@@ -133,6 +138,7 @@ DRV_CMD(layout_dump, "layout.dump") {
   SZ("ClmIndexEntry", ClmFile::IndexEntry);
   OFF("ClmIndexEntry_dataOffset", ClmFile::IndexEntry, dataOffset);
   OFF("ClmIndexEntry_dataLength", ClmFile::IndexEntry, dataLength);
+#endif
   SZ("WaveFormatEx", WaveFormatEx); SZ("RiffHeader", RiffHeader); SZ("FormatChunk", FormatChunk);
   SZ("ChunkHeader", ChunkHeader); SZ("WaveHeader", WaveHeader);
   SZ("MapHeader", MapHeader);
@@ -205,9 +211,19 @@ DRV_CMD(layout_dump, "layout.dump") {
   OFF("Layer_bitmapIndex", Animation::Frame::Layer, bitmapIndex); OFF("Layer_unknown", Animation::Frame::Layer, unknown); OFF("Layer_frameIndex", Animation::Frame::Layer, frameIndex); OFF("Layer_pixelOffset", Animation::Frame::Layer, pixelOffset);
   { PaletteHeader h = PaletteHeader::CreatePaletteHeader(); unsigned char b[sizeof h]; std::memcpy(b, &h, sizeof h);
     outf("def prt_canonicalPaletteHeader : List Nat := ["); for (std::size_t i = 0; i < sizeof h; ++i) outf("%s%u", i ? ", " : "", b[i]); outf("]\n"); }
+#ifndef LAYOUT_PUBLIC_ONLY
   { Tag t = ArtFile::TagPalette; unsigned char b[4]; std::memcpy(b, &t, 4); outf("def prt_TagPalette : List Nat := [%u, %u, %u, %u]\n", b[0], b[1], b[2], b[3]); }
+#endif
   NAT("DefaultCopyChunkSize", Stream::Writer::DefaultCopyChunkSize);
+#ifndef LAYOUT_PUBLIC_ONLY
   NAT("huffLZ_bufferSize", sizeof(HuffLZ::m_DecompressBuffer));
+#endif
+#ifndef LAYOUT_PUBLIC_ONLY
+  outf("def layout_private_measured : Bool := true\n");
+#else
+  // the probes of private nested records did not compile against these headers: their facts keep the pinned values (extract.py)
+  outf("def layout_private_measured : Bool := false\n");
+#endif
   g_out += uninitFacts();
   outf("end Op2.Gen.Layout\n");
   if (!g_out.empty() && g_out.back() == '\n') g_out.pop_back();
